@@ -14,7 +14,8 @@
    of identifiers, constant folding, `0 of` -> none; proved meaning-preserving
    in QuirksProofs.v) followed by [tr], which only lists: operands of an n-ary
    node (the parser merges `a + b + c`, `a and b and c` into one node),
-   boolean constants dropped from `and` / `or`, the variable slots handed out
+   constant operands dropped from `and` / `or` (a `with` whose body is
+   a constant counts as one), the variable slots handed out
    by VarStack (with: 1 per declaration; of: 5; for..of: 5; for..in: 7, the
    loop variable is the sixth), children in dump order (an `of` over a tuple
    lists its items in reverse).
@@ -143,11 +144,7 @@ Inductive cmode := CNone | CAnd | COr | CAr (op : arith).
 
 Fixpoint tr (m : cmode) (sp : nat) (g : slots) (cur : nat) (e : expr) {struct e} : list irn :=
   match e with
-  | EBool b =>
-      match m, b with
-      | CAnd, true | COr, false => []
-      | _, _ => [IR KConstBool [b2z b] []]
-      end
+  | EBool b => [IR KConstBool [b2z b] []]
   | EInt z => [IR KConstInt [z] []]
   | EStr s => [IR KConstStr s []]
   | EFilesize => [IR KFilesize [] []]
@@ -156,10 +153,12 @@ Fixpoint tr (m : cmode) (sp : nat) (g : slots) (cur : nat) (e : expr) {struct e}
   | ERule r => [IR KSymRule [nz r] []]
   | ENot a => [IR KNot [] (tr CNone sp g cur a)]
   | EAnd a b =>
-      let ks := tr CAnd sp g cur a ++ match b with EBool true => [] | _ => tr CNone sp g cur b end in
+      let ks := match bconst a with Some true => [] | _ => tr CAnd sp g cur a end ++
+                match bconst b with Some true => [] | _ => tr CNone sp g cur b end in
       match m with CAnd => ks | _ => [IR KAnd [] ks] end
   | EOr a b =>
-      let ks := tr COr sp g cur a ++ match b with EBool false => [] | _ => tr CNone sp g cur b end in
+      let ks := match bconst a with Some false => [] | _ => tr COr sp g cur a end ++
+                match bconst b with Some false => [] | _ => tr CNone sp g cur b end in
       match m with COr => ks | _ => [IR KOr [] ks] end
   | EDefined a => [IR KDefined [] (tr CNone sp g cur a)]
   | ENeg a => [IR KMinus [] (tr CNone sp g cur a)]
